@@ -505,6 +505,21 @@ func Grid(s Spec, thorough bool) [][3]int64 {
 	return pts
 }
 
+// points at which the sanitizer build is used: indices 0, 1, length, length+1 and one far value
+func boundaryPoint(s Spec, n, i, j int64) bool {
+	if s.Family == "cast" || s.Family == "todo" {
+		return true
+	}
+	near := func(v int64) bool { return v == 0 || v == 1 || v == n || v == n+1 || v == maxI }
+	if twoIndex(s) {
+		return near(i) && near(j)
+	}
+	if s.Form == "to" {
+		return near(j)
+	}
+	return near(i)
+}
+
 func indexClass(n, v int64) string {
 	switch {
 	case v <= -(1<<31) || v >= 1<<31:
@@ -652,14 +667,25 @@ func judge(c Case) (*vf.Failure, string, map[string]int) {
 	if cr.Exit != 0 {
 		return nil, "build-fails(C02): " + ddp.Trunc(cr.Stderr+cr.Stdout, 300), nil
 	}
-	if lr := ddp.LinkObject(dir, obj, exe, true, false); lr.Exit != 0 || lr.TimedOut {
+	// two executables: the plain runtime for the whole grid, the sanitizer build (whose start is 20-50 times
+	// slower) for the boundary points, where an access just outside the domain would happen
+	exeAsan := exe + "-asan"
+	if lr := ddp.LinkObject(dir, obj, exe, false, false); lr.Exit != 0 || lr.TimedOut {
+		return nil, "inconclusive-link: " + ddp.Trunc(lr.Stderr, 300), nil
+	}
+	if lr := ddp.LinkObject(dir, obj, exeAsan, true, false); lr.Exit != 0 || lr.TimedOut {
 		return nil, "inconclusive-link: " + ddp.Trunc(lr.Stderr, 300), nil
 	}
 	classes := map[string]int{}
 	for _, p := range c.Points {
 		n, i, j := p[0], p[1], p[2]
 		want := Expect(c.Spec, n, i, j)
-		r := ddp.ExecNoLeak(dir, exe, fmt.Sprint(n), fmt.Sprint(i), fmt.Sprint(j))
+		use := exe
+		if boundaryPoint(c.Spec, n, i, j) || len(c.Points) == 1 {
+			use = exeAsan
+			classes["sanitizer-run"]++
+		}
+		r := ddp.ExecNoLeak(dir, use, fmt.Sprint(n), fmt.Sprint(i), fmt.Sprint(j))
 		if r.TimedOut {
 			classes["inconclusive-run-timeout"]++
 			continue
@@ -693,7 +719,7 @@ func TestMain(m *testing.M) {
 			"non-trivial = a (specification, index class) pair with the class in {below, first, inside, last, one-past, beyond, far} x {in-domain, out-of-domain}; quick: a seed-chosen subset of the specifications, thorough: all of them",
 		Assumptions: []string{
 			"slice clamping rule (both bounds clamped to 1..length, then crossed bounds are an error, an empty container slices to empty) is the documented behaviour the statement refers to",
-			"runtime and stdlib are the AddressSanitizer builds; accesses performed by generated code itself are only judged by their result",
+			"every grid point runs against the plain runtime; the points with an index in {0, 1, length, length+1, 2^63-1} (both bounds for slices), all Variable conversions and all '...' programs additionally decide which run uses the AddressSanitizer build of runtime and stdlib; accesses performed by generated code itself are only judged by their result",
 		},
 		Judge: func(raw json.RawMessage) *vf.Failure {
 			var c Case
@@ -759,6 +785,10 @@ func TestGrid(t *testing.T) {
 		}
 		var cls []string
 		for cl, cnt := range classes {
+			if cl == "sanitizer-run" {
+				vf.Count("runs-with-sanitizer-build", int64(cnt))
+				continue
+			}
 			cls = append(cls, cl)
 			vf.Case(s.key()+"|"+cl, !strings.HasPrefix(cl, "inconclusive"), s.Family+"/"+s.Form, cl)
 			vf.Evals(int64(cnt) - 1)
